@@ -485,6 +485,8 @@ mod hint;
 mod stdlib;
 pub mod util;
 pub mod values;
+#[cfg(starlark_verif)]
+pub mod verif;
 pub mod wasm;
 
 pub mod pagable;
